@@ -147,6 +147,10 @@ class Model:
         w.take_log()
 
     # -- canonical state -----------------------------------------------------
+    def future(self, w):
+        return e1.drain_future(self, w, [('loss', s)
+                                         for s in range(self.T)])
+
     def canon(self, w):
         m = w.sio.manager
         eio_to_slot = {w.transports[t].sid: s for s, t in enumerate(w.slot)}
@@ -255,14 +259,20 @@ def run(tier, seed, result):
     else:
         cfgs = [dict(T=3, rooms=2, sidroom=False, depth=60),
                 dict(T=2, rooms=2, sidroom=True, depth=60),
-                dict(T=3, rooms=1, sidroom=True, depth=9)]
+                dict(T=3, rooms=1, sidroom=True, depth=9),
+                # the small scopes again, with the "every transport is lost"
+                # look-ahead as part of the state identity
+                dict(T=2, rooms=2, sidroom=False, depth=60, fut=True),
+                dict(T=2, rooms=1, sidroom=True, depth=60, fut=True)]
     closure = True
     notes = []
     for cfg in cfgs:
         depth = cfg.pop('depth')
+        fut = cfg.pop('fut', False)
         for is_async in (False, True):
             params = dict(cfg, is_async=is_async, seed=seed)
-            st = e1.explore('c03', params, result, max_depth=depth)
+            st = e1.explore('c03', params, result, max_depth=depth,
+                            use_future=fut)
             closure = closure and st['closure']
             notes.append(f'{params}: {st}')
     from . import c03_sched
